@@ -211,10 +211,42 @@ impl Suite for Pred {
         // make names/targets line up with the atoms of the predicate table
         for (i, s) in prog.sites.iter_mut().enumerate() {
             if s.is_span {
-                s.name = format!("n{}", i % 3);
+                // incl. a raw identifier as the name (`#[instrument] fn r#type()`)
+                s.name = if rng.chance(1, 8) { (*rng.pick(&["r#type", "type"])).to_owned() } else { format!("n{}", i % 3) };
             }
             if !s.is_span && !s.fields.contains(&"message".to_owned()) && rng.chance(1, 2) {
                 s.fields = vec!["message".into(), "f0".into()];
+            }
+        }
+        // a field that is a raw identifier (`r#type = 1`) next to its plain namesake
+        if rng.chance(1, 5) {
+            let ks = rng.below(prog.sites.len());
+            prog.sites[ks].fields = vec![(*rng.pick(&["r#type", "type"])).to_owned(), "f0".into()];
+            for op in &mut prog.ops {
+                if let program::POp::New { k, vals, .. } | program::POp::Evt { k, vals, .. } = op {
+                    if *k == ks {
+                        *vals = vec![(0, format!("i64:{}", rng.below(2))), (1, "i64:1".into())];
+                    }
+                }
+            }
+            for op in &mut prog.ops {
+                if let program::POp::Rec { vals, .. } = op {
+                    vals.retain(|(i, _)| *i < 2);
+                }
+            }
+        }
+        // a message that is an error value (`error!(message = &err as &dyn Error)`): its text is
+        // the error's message
+        for op in &mut prog.ops {
+            if let program::POp::Evt { k, vals, .. } = op {
+                if prog.sites[*k].fields.first().map(String::as_str) == Some("message") {
+                    for (i, tok) in vals.iter_mut() {
+                        if *i == 0 && rng.chance(1, 5) {
+                            let inner = crate::proto::hex(b"s0");
+                            *tok = format!("{}:{},{inner}", if rng.chance(1, 2) { "err" } else { "erri" }, crate::proto::hex(format!("e{}", rng.below(2)).as_bytes()));
+                        }
+                    }
+                }
             }
         }
         // an item that carries a string field called `log.target` (as events bridged from the `log`
@@ -241,31 +273,36 @@ impl Suite for Pred {
         for op in &mut prog.ops {
             if let program::POp::New { vals, .. } | program::POp::Rec { vals, .. } | program::POp::Evt { vals, .. } = op {
                 for (_, tok) in vals.iter_mut() {
-                    if tok != "empty" && rng.chance(1, 12) {
-                        *tok = (*rng.pick(&["i128:18446744073709551617", "u128:18446744073709551617", "u128:18446744073709551618", "i128:-18446744073709551615", "i128:-1", "str:31"])).to_owned();
+                    if tok != "empty" && rng.chance(1, 8) {
+                        *tok = (*rng.pick(&["i128:18446744073709551617", "u128:18446744073709551617", "u128:18446744073709551618", "i128:-18446744073709551615", "i128:-1", "str:31", "f64:3ff0000000000000", "f64:0000000000000000", "f64:8000000000000000", "f64:7ff8000000000000", "f64:3ff0000000000000"])).to_owned();
                     }
                 }
             }
         }
         let mut lines = prog.lines();
         let (n_sp, n_ev): (usize, usize) = (SPAN_PREDS.with(Vec::len), EVENT_PREDS.with(Vec::len));
-        let n_q = if tier == Tier::Quick { 40 } else { 120 };
+        let n_q = if tier == Tier::Quick { 60 } else { 120 };
         let _ = idx;
+        // plain atoms are a small part of the table: pick one of them every third time
+        let sp_atoms: Vec<usize> = SPAN_PREDS.with(|t| t.iter().enumerate().filter(|(_, e)| !e.0.starts_with("and(") && !e.0.starts_with("or(")).map(|(i, _)| i).collect());
+        let ev_atoms: Vec<usize> = EVENT_PREDS.with(|t| t.iter().enumerate().filter(|(_, e)| !e.0.starts_with("and(") && !e.0.starts_with("or(")).map(|(i, _)| i).collect());
+        let sp_pick = |rng: &mut Rng| if rng.chance(1, 3) { *rng.pick(&sp_atoms) } else { rng.below(n_sp) };
+        let ev_pick = |rng: &mut Rng| if rng.chance(1, 3) { *rng.pick(&ev_atoms) } else { rng.below(n_ev) };
         let n_spans = prog.ops.iter().filter(|o| matches!(o, program::POp::New { .. })).count().max(1);
         let n_events = prog.ops.iter().filter(|o| matches!(o, program::POp::Evt { .. })).count().max(1);
         for _ in 0..n_q {
             match rng.below(8) {
-                0..=2 => lines.push(format!("q sp {} {}", rng.below(n_spans + 1), SPAN_PREDS.with(|t| t[rng.below(n_sp)].0))),
-                3..=5 => lines.push(format!("q ev {} {}", rng.below(n_events + 1), EVENT_PREDS.with(|t| t[rng.below(n_ev)].0))),
+                0..=2 => lines.push(format!("q sp {} {}", rng.below(n_spans + 1), SPAN_PREDS.with(|t| t[sp_pick(rng)].0))),
+                3..=5 => lines.push(format!("q ev {} {}", rng.below(n_events + 1), EVENT_PREDS.with(|t| t[ev_pick(rng)].0))),
                 6 => {
                     let kind = *rng.pick(&["single", "first", "last", "all", "none"]);
                     let whr = match rng.below(3) { 0 => "spans".to_owned(), 1 => format!("children:{}", rng.below(n_spans)), _ => format!("desc:{}", rng.below(n_spans)) };
-                    lines.push(format!("scan {kind} {whr} {}", SPAN_PREDS.with(|t| t[rng.below(n_sp)].0)));
+                    lines.push(format!("scan {kind} {whr} {}", SPAN_PREDS.with(|t| t[sp_pick(rng)].0)));
                 }
                 _ => {
                     let kind = *rng.pick(&["single", "first", "last", "all", "none"]);
                     let whr = match rng.below(3) { 0 => "events".to_owned(), 1 => format!("events:{}", rng.below(n_spans)), _ => format!("deepev:{}", rng.below(n_spans)) };
-                    lines.push(format!("scan {kind} {whr} {}", EVENT_PREDS.with(|t| t[rng.below(n_ev)].0)));
+                    lines.push(format!("scan {kind} {whr} {}", EVENT_PREDS.with(|t| t[ev_pick(rng)].0)));
                 }
             }
         }
